@@ -139,10 +139,10 @@ def bodyStep (lvl : Int) (s : St) : Option St :=
       some (if s'.remaining = 0 then { s' with state := .bodyReceived } else s')
 
 /-- one `case` of `MHD_connection_handle_idle` -/
-def idleStep (lvl : Int) (app : App) (s : St) : Option St :=
+def idleStep [P : HeadParser] (lvl : Int) (app : App) (s : St) : Option St :=
   match s.state with
   | .init =>
-    match parseHead s.buf with
+    match P.head s.buf with
     | .incomplete => none
     | .bad => some { s with state := .outOfDomain, buf := [] }
     | .ok h rest => some { s with state := .headersReceived, head := h, buf := rest }
@@ -173,7 +173,7 @@ def idleStep (lvl : Int) (app : App) (s : St) : Option St :=
   | .bodyReceived =>
     some { s with state := if s.chunked then .footersReceiving else .fullReqReceived }
   | .footersReceiving =>
-    match parseTrailers s.buf with
+    match P.trailers s.buf with
     | .incomplete => none
     | .bad => some { s with state := .outOfDomain, buf := [] }
     | .ok _ rest => some { s with state := .footersReceived, buf := rest }
@@ -214,22 +214,22 @@ def measure (s : St) : Nat := s.buf.length * 16 + rank s.state
 
 /-- the `while` loop of `MHD_connection_handle_idle`, with explicit fuel
     (`idle` below supplies enough: every step decreases `measure`) -/
-def idleFuel (lvl : Int) (app : App) : Nat → St → St
+def idleFuel [HeadParser] (lvl : Int) (app : App) : Nat → St → St
   | 0, s => s
   | n + 1, s =>
     match idleStep lvl app s with
     | none => s
     | some s' => idleFuel lvl app n s'
 
-def idle (lvl : Int) (app : App) (s : St) : St := idleFuel lvl app (measure s + 1) s
+def idle [HeadParser] (lvl : Int) (app : App) (s : St) : St := idleFuel lvl app (measure s + 1) s
 
 /-- bytes arrive from the client (ignored once the connection is closed) -/
-def feed (lvl : Int) (app : App) (s : St) (bytes : Bytes) : St :=
+def feed [HeadParser] (lvl : Int) (app : App) (s : St) (bytes : Bytes) : St :=
   if s.state = .closed ∨ s.state = .outOfDomain then s
   else idle lvl app { s with buf := s.buf ++ bytes }
 
 /-- a whole segmented stream -/
-def runSegs (lvl : Int) (app : App) (segs : List Bytes) : St :=
+def runSegs [HeadParser] (lvl : Int) (app : App) (segs : List Bytes) : St :=
   segs.foldl (feed lvl app) {}
 
 end Mhd.Framing
